@@ -58,7 +58,7 @@ class Lemma:
     functions: list = field(default_factory=list)   # real functions whose bodies are verified here
     expect_fail_prefix: str = "VACUITY"             # obligations that MUST fail (reachability)
     solver: list = field(default_factory=lambda: ["--sat-solver", "cadical"])
-    slice: bool = True              # --slice-formula (cone of influence per obligation)
+    slice: bool = False             # --slice-formula: sound for proofs but can raise spurious failures (dropped assumptions); a failure under slicing is re-checked without it
     gen_h: str = None               # generated per-lemma header, written to the lemma dir and -include'd
     ignore: list = field(default_factory=list)     # regexes of obligation names that are artefacts of evaluating a spec predicate (listed in the evidence)
 
@@ -77,6 +77,7 @@ class Result:
     sentinels: int = 0
     cmd: str = ""
     ignored: list = field(default_factory=list)
+    unknown: list = field(default_factory=list)
 
 
 def sh(cmd, timeout, mem_gb, cwd=None, env=None):
@@ -159,7 +160,7 @@ def run_lemma(l, known):
                 extra_us.append(ent.replace(fn + ".", fn + "_wrapped_for_contract_checking.", 1))
     if extra_us:
         us += "," + ",".join(extra_us)
-    cb = ["cbmc", binary, "--json-ui", "--trace", "--unwinding-assertions",
+    cb = ["cbmc", binary, "--json-ui", "--trace", "--unwinding-assertions", "--drop-unused-functions",
           "--unwind", str(l.unwind), "--unwindset", us] + l.solver
     if l.safety:
         cb += SAFETY
@@ -169,6 +170,11 @@ def run_lemma(l, known):
         cb += ["--object-bits", str(l.object_bits)]
     cb += l.extra
     rc, out, err, secs = sh(cb, l.timeout, l.mem_gb)
+    if l.slice and '"status": "FAILURE"' in out.replace("VACUITY", "") and _has_real_failure(out, l):
+        # a failure under --slice-formula may be an artefact: decide it again on the full formula
+        cb = [c for c in cb if c != "--slice-formula"]
+        rc, out, err, secs = sh(cb, l.timeout, l.mem_gb)
+        log += "(re-run without --slice-formula to confirm a failure)\n"
     log += "$ " + " ".join(cb) + "\n"
     with open(os.path.join(d, "cbmc.json"), "w") as f:
         f.write(out)
@@ -212,6 +218,9 @@ def run_lemma(l, known):
         descr = r.get("description", "")
         status = r.get("status")
         if l.expect_fail_prefix and descr.startswith(l.expect_fail_prefix):
+            fn = name.split(".")[0]
+            if fn.startswith("h_") and fn != l.entry:
+                continue            # sentinel of another entry point in the same harness file
             if status == "FAILURE":
                 sentinels_ok += 1
             else:
@@ -223,6 +232,8 @@ def run_lemma(l, known):
         res.obligations += 1
         if status == "SUCCESS":
             res.discharged += 1
+        elif status != "FAILURE":
+            res.unknown.append(name + ": " + descr)     # cbmc leaves obligations UNKNOWN once another one has failed
         else:
             res.failed.append({"name": name, "description": descr, "status": status,
                                "location": r.get("sourceLocation", {}),
@@ -239,11 +250,29 @@ def run_lemma(l, known):
     if need_dfcc and l.apply_loops and not any("loop invariant" in (r.get("description", "")) or "loop_invariant" in r.get("property", "") for r in results):
         res.detail = "loop contract silently dropped (no loop invariant obligations)"
         return res
-    res.status = "failed" if res.failed else "proved"
+    if res.failed:
+        res.status = "failed"
+    elif res.unknown:
+        res.status = "error"
+        res.detail = "%d obligations left UNKNOWN by cbmc without any failure: %s" % (len(res.unknown), "; ".join(res.unknown[:3]))
+    else:
+        res.status = "proved"
     return res
 
 
 ALLOWED_NO_BODY = set()
+
+
+def _has_real_failure(out, l):
+    try:
+        js = json.loads(out)
+    except Exception:
+        return False
+    for item in js:
+        for r in item.get("result", []) if isinstance(item, dict) else []:
+            if r.get("status") == "FAILURE" and not r.get("description", "").startswith(l.expect_fail_prefix):
+                return True
+    return False
 
 
 def trace_ghosts(trace, names):
